@@ -58,8 +58,35 @@ func vEtcdUnlock(em *concurrency.Mutex, ctx context.Context) error {
 	return nil
 }
 
+// vWithTimeout replaces context.WithTimeout. The passage of time is not modelled: the etcd
+// stub decides by itself whether an acquisition times out. In the harnesses that set
+// vDeadlinesPass the deadline of a request may in addition pass at ANY moment while the
+// caller is still inside Lock (a goroutine cancels the context with DeadlineExceeded).
+var vDeadlinesPass bool
+
+type vDeadlineCtx struct {
+	context.Context
+	expired *bool
+}
+
+func (c vDeadlineCtx) Err() error {
+	if *c.expired {
+		return context.DeadlineExceeded
+	}
+	return c.Context.Err()
+}
+
 func vWithTimeout(parent context.Context, d time.Duration) (context.Context, context.CancelFunc) {
-	return context.WithCancel(parent)
+	ctx, cancel := context.WithCancel(parent)
+	if vDeadlinesPass && verifBool("deadlinePassesAtSomeMoment") {
+		expired := false
+		go func() {
+			expired = true
+			cancel()
+		}()
+		return vDeadlineCtx{ctx, &expired}, cancel
+	}
+	return ctx, cancel
 }
 
 func verifC18_Mutex() {
@@ -99,6 +126,40 @@ func verifC18_Mutex() {
 	if entered >= 2 {
 		verifCover("two-holders-in-sequence")
 	}
+}
+
+// verifC18_MutexTimeout: the request timeout of a waiting caller may pass at any moment -
+// while it waits for the member's own lock, while it waits for etcd, after it got both. Whatever
+// Lock does about it, a caller that was told "failed" holds nothing, the holder is not
+// disturbed (at most one holder), and nobody is left stuck.
+func verifC18_MutexTimeout() {
+	vHolder = 0
+	vDeadlinesPass = true
+	e1 := &concurrency.Mutex{}
+	vSessionOf[e1] = 1
+	m1 := &mutex{m: e1, timeout: time.Second}
+	inCritical := 0
+	var wg sync.WaitGroup
+	worker := func() {
+		defer wg.Done()
+		if err := m1.Lock(); err != nil {
+			verifCover("acquisition-failed")
+			return
+		}
+		inCritical++
+		verifAssert(inCritical == 1, "at-most-one-holder-across-goroutines")
+		verifYield()
+		verifAssert(inCritical == 1, "at-most-one-holder-across-goroutines")
+		inCritical--
+		verifAssert(m1.Unlock() == nil || true, "unlock-returns")
+	}
+	n := verifBound("goroutinesOnMember1")
+	for i := 0; i < n; i++ {
+		wg.Add(1)
+		go worker()
+	}
+	wg.Wait()
+	vDeadlinesPass = false
 }
 
 // verifC18_MutexFromCluster: the mutexes are obtained the way the admin API obtains them, from
